@@ -88,7 +88,7 @@ macro_rules! ingest_prop {
 
 ingest_prop!(
     C01Prop, C01, "C01", Which::C01, 16_000, 250_000,
-    "one run = an honest LogWorld history delivered once (with drops, duplicates, reordering) plus forged copies: each forged copy carries exactly one mutation out of 17 kinds (bit flip through the real decoder, body changes, every header field, signature strip/replace/re-sign, author-signed malformed headers); non-trivial = at least two deliveries; distinct = distinct trace fingerprint (schedule, mutation kinds and positions, ingest verdicts)",
+    "one run = an honest LogWorld history delivered once (with drops, duplicates, reordering) plus forged copies: each forged copy carries exactly one mutation out of 18 kinds (bit flip through the real decoder, body changes, every header field, signature strip/replace/re-sign, author-signed malformed headers, small-order key with the signature that verifies non-strictly for every message); non-trivial = at least two deliveries; distinct = distinct trace fingerprint (schedule, mutation kinds and positions, ingest verdicts)",
     vec!["forged_copy_before_honest", "forged_copy_after_honest", "bit_flip_rejected_by_decoder"]
 );
 ingest_prop!(
